@@ -6,9 +6,12 @@ import SqlfluffVerif.Driver.Noqa
 import SqlfluffVerif.Driver.Select
 import SqlfluffVerif.Driver.MatchResult
 import SqlfluffVerif.Driver.TreeSpec
+import SqlfluffVerif.Driver.Lexer
+import SqlfluffVerif.Driver.LexSpec
+import SqlfluffVerif.Driver.Slices
 open SqlfluffVerif SqlfluffVerif.Proto SqlfluffVerif.Driver
 
-def handlers : List (List String → Option String) := [handlePos, handlePatch, handleDedupe, handleNoqa, handleSelect, handleMR, handleTreeSpec]
+def handlers : List (List String → Option String) := [handlePos, handlePatch, handleDedupe, handleNoqa, handleSelect, handleMR, handleTreeSpec, handleLexer, handleLexSpec, handleSlices]
 
 def handle (toks : List String) : String :=
   match toks with
